@@ -54,3 +54,22 @@ Theorem C09_check_after_fmt_ok : forall fs, errors fs = false ->
   exit_code (format_files {| check := true; diff := false |} (after_fmt (fun _ => Same) fs)) = 0%Z.
 Proof. exact check_after_fmt. Qed.
 Print Assumptions C09_check_after_fmt_ok.
+
+(* T6  indentation: level n is exactly n * width spaces, so a block body (level n+1) is indented STRICTLY more than
+       its header (level n) for ALL n, and the writer emits exactly these prefixes *)
+Theorem C09_body_indented_more :
+  (forall w n, 0 < w -> length (indent_of w n) < length (indent_of w (S n))) /\
+  (forall st h hs b bs, at_start st = true ->
+     out (run st [W (h :: hs); NL; IN; W (b :: bs); NL]) =
+     out st ++ indent_of indent_width (ind st) ++ (h :: hs) ++ [10%Z] ++ indent_of indent_width (S (ind st)) ++ (b :: bs) ++ [10%Z]).
+Proof. split; [exact indent_strict | exact writer_block]. Qed.
+Print Assumptions C09_body_indented_more.
+
+(* T7  the capped-indent mutant (indentation sliced from a run of 64 spaces) is refuted: it agrees with the real
+       definition up to level 16, and from level 17 on a body is no longer indented more than its header *)
+Theorem C09_capped_indent_refuted :
+  (forall n, n <= 16 -> capped_indent 4 64 n = indent_of 4 n) /\
+  length (capped_indent 4 64 17) = length (capped_indent 4 64 16) /\
+  length (indent_of 4 16) < length (indent_of 4 17).
+Proof. split; [exact capped_agrees_small|]. split; [exact capped_not_strict|]. apply indent_strict. auto. Qed.
+Print Assumptions C09_capped_indent_refuted.
